@@ -1,26 +1,33 @@
-(* M-SCHED: executable model of `xvc pipeline run` (pipeline/src/pipeline/mod.rs, command.rs).
-   NO proofs here (the model must stay runnable when a proof breaks); proofs are in Sched/Proofs.v.
+(* M-SCHED: executable small-step model of `xvc pipeline run` (pipeline/src/pipeline/mod.rs, command.rs,
+   deps/mod.rs).  NO proofs here (the model must stay runnable when a proof breaks); the proofs are in
+   Sched/Proofs.v (safety: C10, C13) and Sched/Live.v (liveness: C11).
 
-   What is modelled, as the code is on the current tree, with every intended repair behind its own
-   boolean so that both readings are executable:
+   Every repair of a defect found by the checks sits behind its own boolean, so that the behaviour
+   before and after each repair is executable (the Props files refute the property with the switch
+   off and prove it with the switch on).  The CURRENT tree (HEAD of /repo) is
+       fix_shared_pool = fix_atomic_acquire = true   (P11, commit b7ee5068)
+       fixed_P12 = true                              (commit 5debdd30)
+       fixed_P14 = true                              (commit d7aff2dd)
+       fixed_P13 = false  until repo-patches/52-fix-P13-read-both-pipes-together is applied
+   and this is what the checks pass to the extracted model (the P13 bit is decided by a probe run).
+
+   What is modelled:
    - the dependency graph: explicit step dependencies and the implicit edges of
      [add_implicit_dependencies] / [dependencies_to_path] (file-like kinds: path equality; glob:
      matches AND the path exists now; glob-items: member of the RECORDED item list);
    - rejection of unknown step names and of cyclic graphs before any thread starts;
    - one thread per step running [step_state_handler]: every loop iteration is two atomic actions,
      "send the current state to the bulletin channel" ([PSend]) and "run the s_* function of the
-     state" ([PAct]); the two inner polling loops (dependency wait, process wait) and the pool-full
-     loop are stutter transitions;
+     state" ([PAct]); the inner polling loops (dependency wait, pool full, process wait) are stutter
+     transitions;
    - the bulletin thread ([step_state_bulletin]): moves the head of a step's channel into
      current_states; step threads read only current_states;
-   - the process pool counter(s) ([available_process_slots]): one counter per step thread on the
-     current tree ([fix_shared_pool = false]), test and decrement in different handler iterations
-     ([fix_atomic_acquire = false]);
+   - the process slot counter ([available_process_slots], [try_acquire_process_slot]);
    - the child process and its two pipes (capacity [c_cap]) with the reader of
      [CommandProcess::update_output_channels]: stdout is read to EOF before stderr is touched
-     ([fixed_P13 = false]);
-   - thread death: an [Err] return (popen failure) or a [uwr!] panic (comparison error) ends the
-     thread without a terminal state; the panic also kills the output thread, after which every
+     unless [fixed_P13];
+   - thread death: an [Err] return (popen failure) or a [uwr!] panic (thorough comparison error) ends
+     the thread without a terminal state; the panic also kills the output thread, after which every
      other step thread dies at its next logging call (over-approximated by the [Crash] transition).
    States and events of the per-step machine come from the regenerated Gen/StepMachine.v. *)
 From Coq Require Import List Bool NArith Lia.
